@@ -32,6 +32,10 @@ type updSite struct {
 	get     *ssa.Call
 	upd     *ssa.Call
 	fetched *Term
+	// commit: the instruction at which the modified object is handed on — the Update itself, or
+	// the `return true` of a mutator helper (then key names the Update site of the caller)
+	commit ssa.Instruction
+	key    string
 }
 
 func (ck *Check) updateSites(rule string) []*updSite {
@@ -131,6 +135,11 @@ func checkC15(ck *Check) {
 			if call, node, found := ck.taintSearchCall(ctx, fn, keyLit); call != nil && node.Key() == us.fetched.Key() {
 				ck.entails("C15.R4", key+"/no-restamp", us.upd, ctx.PC(us.upd), Not(found), "Update runs only if no taint of the fetched object carries the escalator key (decided by the search function "+calleeName(call)+")")
 				ck.addedTaint("C15.R3", us)
+				continue
+			}
+		}
+		if loop == nil && fn == a.DelTaint {
+			if ck.deleteThroughHelper(us, keyLit) {
 				continue
 			}
 		}
@@ -343,13 +352,20 @@ func (ck *Check) addedTaint(rule string, us *updSite) {
 func (ck *Check) deleteIdiom(rule string, us *updSite, loop *Loop, match *Term) {
 	fn, ctx := us.fn, us.ctx
 	key := ck.P.siteKey(us.upd)
+	if us.key != "" {
+		key = us.key
+	}
+	commit := us.commit
+	if commit == nil {
+		commit = us.upd
+	}
 	// the removal index: the loop's own index under the match (Update inside the loop), or a
 	// variable every feasible defining case of which is the loop index taken on an exit under the
 	// match (search first, remove after the loop)
 	idxOK := func(v ssa.Value) bool {
 		if rangeLoopOf(v) == loop.IdxPhi {
-			imp, _, _ := Entails(ctx.PC(us.upd), Atom(match))
-			return imp && loop.Header.Dominates(us.upd.Block())
+			imp, _, _ := Entails(ctx.PC(commit), Atom(match))
+			return imp && loop.Header.Dominates(commit.Block())
 		}
 		ph, isPhi := v.(*ssa.Phi)
 		if !isPhi || ctx.loopCarried(ph) {
@@ -359,7 +375,7 @@ func (ck *Check) deleteIdiom(rule string, us *updSite, loop *Loop, match *Term) 
 		matched := 0
 		for _, vc := range ck.valueCases(ctx, FTrue, v, 0) {
 			// the path condition of the Update with the index replaced by this case's value
-			pcv := ctx.PC(us.upd).Subst(func(at *Term) *Formula {
+			pcv := ctx.PC(commit).Subst(func(at *Term) *Formula {
 				if at.Kind != "cmp" || !at.contains(func(x *Term) bool { return x.Key() == vt.Key() }) {
 					return nil
 				}
@@ -402,12 +418,12 @@ func (ck *Check) deleteIdiom(rule string, us *updSite, loop *Loop, match *Term) 
 	okPos := false
 	if removalIdx != nil {
 		okPos = idxOK(removalIdx)
-	} else if imp, _, _ := Entails(ctx.PC(us.upd), Atom(match)); imp {
-		okPos = loop.Header.Dominates(us.upd.Block())
+	} else if imp, _, _ := Entails(ctx.PC(commit), Atom(match)); imp {
+		okPos = loop.Header.Dominates(commit.Block())
 	}
-	ck.cond(okPos, rule, key+"/guard", ck.P.instrPos(us.upd), funcID(fn), "the removal and Update happen at an index whose taint Key matched", ctx.PC(us.upd).String(), "a taint other than escalator's is removed")
-	back := reachesWithout(us.upd, loop.Header.Instrs[0], func(ssa.Instruction) bool { return false })
-	ck.cond(!back, rule, key+"/returns", ck.P.instrPos(us.upd), funcID(fn), "the function returns on every path after its single Update (no further iteration over the mutated slice)", "", "the loop continues over a slice it has just modified (more than one taint can be removed)")
+	ck.cond(okPos, rule, key+"/guard", ck.P.instrPos(commit), funcID(fn), "the removal and Update happen at an index whose taint Key matched", ctx.PC(commit).String(), "a taint other than escalator's is removed")
+	back := reachesWithout(commit, loop.Header.Instrs[0], func(ssa.Instruction) bool { return false })
+	ck.cond(!back, rule, key+"/returns", ck.P.instrPos(commit), funcID(fn), "the function returns on every path after its single Update (no further iteration over the mutated slice)", "", "the loop continues over a slice it has just modified (more than one taint can be removed)")
 	// the stores: swap-with-last + truncate-by-one, or splice
 	var elemStore, hdrStore *ssa.Store
 	for _, b := range fn.Blocks {
@@ -464,7 +480,7 @@ func (ck *Check) deleteIdiom(rule string, us *updSite, loop *Loop, match *Term) 
 			}
 		}
 	}
-	ck.cond(okv && hdrStore != nil && dominatesInstr(hdrStore, us.upd), rule, key+"/idiom", ck.P.instrPos(us.upd), funcID(fn), "exactly one element — the matched one — is removed from Spec.Taints before the Update", "", why)
+	ck.cond(okv && hdrStore != nil && dominatesInstr(hdrStore, commit), rule, key+"/idiom", ck.P.instrPos(commit), funcID(fn), "exactly one element — the matched one — is removed from Spec.Taints before the Update", "", why)
 	if !okv && hdrStore != nil {
 		return
 	}
@@ -1164,6 +1180,31 @@ func (ck *Check) nodeListImmutability(rule string) {
 		seen[v] = true
 		switch x := v.(type) {
 		case *ssa.Parameter:
+			// a helper that is only ever handed the caller's own (fetched) object may write it
+			if fn := x.Parent(); fn != nil && len(seen) < 12 {
+				idx := -1
+				for i, q := range fn.Params {
+					if q == x {
+						idx = i
+					}
+				}
+				n, allOwn := 0, true
+				for _, cf := range ck.P.callers[fn] {
+					sites := callsTo(cf, fn)
+					if len(sites) == 0 {
+						allOwn = false
+					}
+					for _, ci := range sites {
+						n++
+						if idx < 0 || idx >= len(ci.Common().Args) || sharedObj(ci.Common().Args[idx], seen) != "" {
+							allOwn = false
+						}
+					}
+				}
+				if n > 0 && allOwn && fn.Object() != nil && !fn.Object().Exported() {
+					return ""
+				}
+			}
 			return "parameter " + x.Name()
 		case *ssa.FreeVar:
 			return "captured " + x.Name()
@@ -1466,7 +1507,7 @@ func (ck *Check) existsSummary(fn *ssa.Function) *existsSum {
 		loop = l
 	}
 	if loop == nil {
-		return nil
+		return ck.existsSummaryLibrary(fn)
 	}
 	ctx := ck.P.NewCtx(fn)
 	ctx.maxD = 0 // the summary is about fn's own body
@@ -1548,6 +1589,22 @@ func (ck *Check) taintSearchCall(ctx *Ctx, fn *ssa.Function, keyLit string) (*ss
 	for _, ci := range callsIn(fn, nil) {
 		call, ok := ci.(*ssa.Call)
 		if !ok {
+			continue
+		}
+		// a library search written in place: slices.ContainsFunc(x.Spec.Taints, <Key == escalator key>)
+		if list, probe, pred, found := ck.librarySearch(ctx, fn, call); list != nil {
+			isKey := pred.kind == fAtom && pred.atom.Kind == "cmp" && pred.atom.Name == "==" && hasConstStr(pred.atom, keyLit)
+			if isKey {
+				okField := false
+				for _, x := range pred.atom.Args {
+					if x.Kind == "field" && x.Name == "Key" && len(x.Args) == 1 && x.Args[0].Key() == probe.Key() {
+						okField = true
+					}
+				}
+				if okField && list.Kind == "field" && list.Name == "Taints" && list.Args[0].Kind == "field" && list.Args[0].Name == "Spec" {
+					return call, list.Args[0].Args[0], found
+				}
+			}
 			continue
 		}
 		h := call.Common().StaticCallee()
@@ -1721,4 +1778,214 @@ func (ck *Check) getCallIn(fn *ssa.Function) *ssa.Call {
 		}
 	}
 	return nil
+}
+
+// deleteThroughHelper: the untaint's search-and-remove lives in a mutator helper h(fetched, key)
+// bool: with h's parameters bound to the call's arguments, h searches fetched.Spec.Taints for the
+// escalator key, removes exactly the matched element before returning true, leaves the object
+// untouched when it returns false, and the caller's Update runs only when h returned true.
+func (ck *Check) deleteThroughHelper(us *updSite, keyLit string) bool {
+	fn, ctx := us.fn, us.ctx
+	for _, ci := range callsIn(fn, nil) {
+		call, ok := ci.(*ssa.Call)
+		if !ok || !dominatesInstr(call, us.upd) {
+			continue
+		}
+		h := call.Common().StaticCallee()
+		if h == nil || !ck.P.inRepo(h) || h.Blocks == nil || h.Signature.Results().Len() != 1 || !isBool(h.Signature.Results().At(0).Type()) {
+			continue
+		}
+		args := make([]*Term, len(call.Common().Args))
+		for i, av := range call.Common().Args {
+			args[i] = ctx.Term(av)
+		}
+		ch := ctx.child(h, call, args)
+		ch.depth = 0
+		var loop *Loop
+		for _, l := range loopsOf(h) {
+			if l.IdxPhi == nil {
+				continue
+			}
+			ot := ch.Term(l.Over)
+			if ot.Kind == "field" && ot.Name == "Taints" && ot.Args[0].Kind == "field" && ot.Args[0].Name == "Spec" && ot.Args[0].Args[0].Key() == us.fetched.Key() {
+				loop = l
+			}
+		}
+		if loop == nil {
+			continue
+		}
+		key := ck.P.siteKey(us.upd)
+		// the match atom in the helper: elem.Key == <escalator key> (key parameter bound)
+		var match *Term
+		for _, b := range h.Blocks {
+			for _, at := range ch.BlockPC(b).Atoms() {
+				if at.Kind == "cmp" && at.Name == "==" && hasConstStr(at, keyLit) {
+					for _, x := range at.Args {
+						if x.Kind == "field" && x.Name == "Key" {
+							match = at
+						}
+					}
+				}
+			}
+		}
+		if match == nil {
+			ck.fail("C15.R4", key+"/match", ck.P.instrPos(call), funcID(h), "the search compares each taint's Key with "+keyLit, "no such comparison in "+funcID(h), "")
+			return true
+		}
+		// returns: true ones are commits, false ones must not follow a store into the object
+		var stores []*ssa.Store
+		for _, b := range h.Blocks {
+			for _, in := range b.Instrs {
+				if st, ok := in.(*ssa.Store); ok {
+					if _, rooted := rootedAt(ch, st.Addr, us.fetched); rooted {
+						stores = append(stores, st)
+					}
+				}
+			}
+		}
+		okFalse := true
+		ncommit := 0
+		for _, b := range h.Blocks {
+			r, ok := b.Instrs[len(b.Instrs)-1].(*ssa.Return)
+			if !ok {
+				continue
+			}
+			k, isC := r.Results[0].(*ssa.Const)
+			if !isC || k.Value == nil {
+				okFalse = false
+				continue
+			}
+			if k.Value.String() == "true" {
+				ncommit++
+				us2 := &updSite{fn: h, ctx: ch, get: us.get, upd: us.upd, fetched: us.fetched, commit: r, key: key}
+				ck.deleteIdiom("C15.R5", us2, loop, match)
+				continue
+			}
+			for _, st := range stores {
+				if reachesWithout(st, r, func(ssa.Instruction) bool { return false }) {
+					okFalse = false
+				}
+			}
+		}
+		ck.cond(okFalse && ncommit >= 1, "C15.R5", key+"/helper-false", ck.P.instrPos(call), funcID(h), "the mutator helper leaves the object untouched when it reports that nothing was removed", "", "the object is modified although the helper returns false")
+		// the Update runs only when the helper removed the taint
+		removed := ctx.Formula(call)
+		ck.entails("C15.R4", key+"/search", us.upd, ctx.PC(us.upd), removed, "Update runs only when the search found and removed the escalator taint (through "+funcID(h)+")")
+		return true
+	}
+	return false
+}
+
+// predicateOf: the boolean result of applying the function value v (a closure made in fn, or the
+// closure returned by a repo factory such as taintHasKey(key)) to the element term, in ctx's
+// vocabulary. nil when v is not such a value.
+func (ck *Check) predicateOf(ctx *Ctx, fn *ssa.Function, v ssa.Value, elem *Term) *Formula {
+	switch x := v.(type) {
+	case *ssa.MakeClosure:
+		return closureResult(ctx, x, []*Term{elem})
+	case *ssa.Call:
+		h := x.Common().StaticCallee()
+		if h == nil || !ck.P.inRepo(h) || h.Blocks == nil || len(h.Blocks) != 1 {
+			return nil
+		}
+		r, ok := h.Blocks[0].Instrs[len(h.Blocks[0].Instrs)-1].(*ssa.Return)
+		if !ok || len(r.Results) != 1 {
+			return nil
+		}
+		mc, ok := r.Results[0].(*ssa.MakeClosure)
+		if !ok {
+			return nil
+		}
+		args := make([]*Term, len(x.Common().Args))
+		for i, av := range x.Common().Args {
+			args[i] = ctx.Term(av)
+		}
+		ch := ctx.child(h, x, args)
+		ch.depth = 0
+		return closureResult(ch, mc, []*Term{elem})
+	case *ssa.Function:
+		if ck.P.inRepo(x) && x.Blocks != nil && !infoOf(x).hasLoop && len(x.Params) == 1 {
+			ch := ctx.child(x, nil, []*Term{elem})
+			ch.depth = 0
+			return ch.returnFormula(0)
+		}
+	}
+	return nil
+}
+
+// librarySearch: call is slices.ContainsFunc / slices.IndexFunc / slices.Contains / slices.Index over
+// a list; returns the list term, the formula of "the element satisfies the predicate" for a probe
+// element, and the formula of "found" for this very call.
+func (ck *Check) librarySearch(ctx *Ctx, fn *ssa.Function, call *ssa.Call) (list *Term, probe *Term, pred *Formula, found *Formula) {
+	f := call.Common().StaticCallee()
+	if f == nil || pkgPathOfFn(f) != "slices" || len(call.Common().Args) != 2 {
+		return nil, nil, nil, nil
+	}
+	list = ctx.Term(call.Common().Args[0])
+	probe = &Term{Kind: "elem", Args: []*Term{list}, ID: "probe"}
+	name := f.Name()
+	switch {
+	case strings.HasPrefix(name, "ContainsFunc"), strings.HasPrefix(name, "IndexFunc"):
+		pred = ck.predicateOf(ctx, fn, call.Common().Args[1], probe)
+	case strings.HasPrefix(name, "Contains"), strings.HasPrefix(name, "Index"):
+		pred = cmpFormula(token.EQL, probe, ctx.Term(call.Common().Args[1]))
+	}
+	if pred == nil {
+		return nil, nil, nil, nil
+	}
+	if strings.HasPrefix(name, "Contains") {
+		found = ctx.Formula(call)
+	} else {
+		found = Not(cmpFormula(token.LSS, ctx.Term(call), zeroTerm(types.Typ[types.Int])))
+	}
+	return
+}
+
+// existsSummaryLibrary: a loop-free search function built on slices.ContainsFunc / IndexFunc /
+// Contains / Index: its last (boolean) result is true exactly when the library search finds an
+// element, and the predicate is `e.Field == Lit` (or `e == Lit`).
+func (ck *Check) existsSummaryLibrary(fn *ssa.Function) *existsSum {
+	if infoOf(fn).hasLoop {
+		return nil
+	}
+	ctx := ck.P.NewCtx(fn)
+	ctx.maxD = 0
+	var sum *existsSum
+	for _, ci := range callsIn(fn, nil) {
+		call, ok := ci.(*ssa.Call)
+		if !ok {
+			continue
+		}
+		list, probe, pred, found := ck.librarySearch(ctx, fn, call)
+		if list == nil {
+			continue
+		}
+		if pred.kind != fAtom || pred.atom.Kind != "cmp" || pred.atom.Name != "==" {
+			return nil
+		}
+		var lit *Term
+		fname, hit := "", false
+		for i, x := range pred.atom.Args {
+			switch {
+			case x.Kind == "field" && len(x.Args) == 1 && x.Args[0].Key() == probe.Key():
+				fname, lit, hit = x.Name, pred.atom.Args[1-i], true
+			case x.Key() == probe.Key():
+				fname, lit, hit = "", pred.atom.Args[1-i], true
+			}
+		}
+		if !hit || !(lit.Kind == "const" || lit.Kind == "param") {
+			return nil
+		}
+		// the function's boolean result ⇔ found
+		last := fn.Signature.Results().Len() - 1
+		got := ctx.returnFormula(last)
+		if eq, _, _ := Equivalent(got, found); !eq {
+			return nil
+		}
+		if sum != nil {
+			return nil // several searches
+		}
+		sum = &existsSum{Fn: fn, List: list, Field: fname, Lit: lit}
+	}
+	return sum
 }
